@@ -252,6 +252,53 @@ impl StrPair {
                 }
                 return OpOutcome { b: bo, s: so, extra: None };
             }
+            SOp::UnsafeRoundTrip(mode) => {
+                let b = self.b.take().unwrap();
+                let s = self.s.take().unwrap();
+                let mode = *mode;
+                let same_bump = std::ptr::eq(b.bump(), bump);
+                let rb = b_call(move || match mode {
+                    0 => {
+                        let mut m = std::mem::ManuallyDrop::new(b);
+                        let (l, c, owner) = (m.len(), m.capacity(), m.bump());
+                        let p = m.as_mut_str().as_mut_ptr();
+                        unsafe { BString::from_raw_parts_in(p, l, c, owner) }
+                    }
+                    1 => unsafe { BString::from_utf8_unchecked(b.into_bytes()) },
+                    _ => {
+                        let mut b = b;
+                        unsafe { b.as_mut_vec().push(b'q') };
+                        b.as_mut_str().make_ascii_uppercase();
+                        b
+                    }
+                });
+                let rs = s_call(move || match mode {
+                    0 => {
+                        let mut m = std::mem::ManuallyDrop::new(s);
+                        let (l, c) = (m.len(), m.capacity());
+                        let p = m.as_mut_str().as_mut_ptr();
+                        unsafe { String::from_raw_parts(p, l, c) }
+                    }
+                    1 => unsafe { String::from_utf8_unchecked(s.into_bytes()) },
+                    _ => {
+                        let mut s = s;
+                        unsafe { s.as_mut_vec().push(b'q') };
+                        s.as_mut_str().make_ascii_uppercase();
+                        s
+                    }
+                });
+                let (mut bo, mut so) = (Err(()), Err(()));
+                if let Ok(x) = rb {
+                    self.b = Some(x);
+                    bo = Ok(Ret::Unit);
+                }
+                if let Ok(x) = rs {
+                    self.s = Some(x);
+                    so = Ok(Ret::Unit);
+                }
+                let extra = if same_bump { None } else { Some(("C14", "string-bump-accessor-wrong-arena", String::new())) };
+                return OpOutcome { b: bo, s: so, extra };
+            }
             SOp::AddStr(t) => {
                 let b = self.b.take().unwrap();
                 let s = self.s.take().unwrap();
@@ -349,22 +396,62 @@ impl StrPair {
                     b.extend(v.iter().map(|x| x.as_str()));
                     let cs: Vec<char> = v.iter().filter_map(|x| x.chars().next()).collect();
                     b.extend(cs.iter());
+                    b.extend(v.iter().map(|x| BString::from_str_in(x, bump)));
+                    b.extend(v.iter().map(|x| x.clone()));
+                    b.extend(v.iter().map(|x| std::borrow::Cow::Borrowed(x.as_str())));
                 })
                 .map(|_| Ret::Unit),
                 s_call(|| {
                     s.extend(v.iter().map(|x| x.as_str()));
                     let cs: Vec<char> = v.iter().filter_map(|x| x.chars().next()).collect();
                     s.extend(cs.iter());
+                    s.extend(v.iter().map(|x| x.clone()));
+                    s.extend(v.iter().map(|x| x.clone()));
+                    s.extend(v.iter().map(|x| std::borrow::Cow::Borrowed(x.as_str())));
                 })
                 .map(|_| Ret::Unit),
             ),
-            SOp::CloneCmp => (
-                b_call(|| {
-                    let c = b.clone();
-                    Ret::Text(c.as_str().to_string())
-                }),
-                s_call(|| Ret::Text(s.clone())),
-            ),
+            SOp::CloneCmp => {
+                // clone plus the comparison / borrowing / IndexMut glue, observed as one text per world
+                macro_rules! views {
+                    ($v:expr) => {{
+                        let v = $v;
+                        let mut c = v.clone();
+                        let std_copy: String = v.as_str().to_string();
+                        let cow: std::borrow::Cow<str> = std::borrow::Cow::Borrowed(v.as_str());
+                        let mut flags = vec![
+                            c == *v,
+                            *v == *v.as_str(),
+                            *v.as_str() == *v,
+                            *v == v.as_str(),
+                            v.as_str() == *v,
+                            cow == *v,
+                            *v == cow,
+                            std_copy == *v,
+                            *v == std_copy,
+                            AsRef::<[u8]>::as_ref(v) == v.as_bytes(),
+                            AsRef::<str>::as_ref(v) == v.as_str(),
+                            std::borrow::Borrow::<str>::borrow(v) == v.as_str(),
+                        ];
+                        std::borrow::BorrowMut::<str>::borrow_mut(&mut c).make_ascii_uppercase();
+                        flags.push(c == *v);
+                        (&mut c[..]).make_ascii_lowercase();
+                        flags.push(c == *v);
+                        c.push('!');
+                        flags.push(c == *v);
+                        flags.push(c != *v);
+                        flags.push(*v == "abc!" || c == "abc!");
+                        let ends = c.len();
+                        (&mut c[..ends]).make_ascii_uppercase();
+                        (&mut c[0..]).make_ascii_lowercase();
+                        (&mut c[0..ends]).make_ascii_uppercase();
+                        (&mut c[..=ends - 1]).make_ascii_lowercase();
+                        (&mut c[0..=ends - 1]).make_ascii_uppercase();
+                        Ret::Text(format!("{:?} {} {:?}", flags, c.as_str(), v.as_str()))
+                    }};
+                }
+                (b_call(|| views!(&*b)), s_call(|| views!(&*s)))
+            }
             SOp::Format(n, t) => (
                 b_call(|| {
                     let r = write!(b, "{}-{:?}-{:>5}", n, t, t).is_ok();
@@ -428,7 +515,7 @@ impl StrPair {
                 })
                 .map(|x| Ret::Text(format!("{:?}", x))),
             ),
-            SOp::IntoBumpStr | SOp::IntoBytesRoundTrip | SOp::AddStr(_) | SOp::Recreate(_) => unreachable!(),
+            SOp::IntoBumpStr | SOp::IntoBytesRoundTrip | SOp::UnsafeRoundTrip(_) | SOp::AddStr(_) | SOp::Recreate(_) => unreachable!(),
         };
         OpOutcome { b: rb, s: rs, extra }
     }
